@@ -30,7 +30,7 @@ int g_fuel; int g_writes;
 void vf_harness()
 {
   std::istream is; String title; VectorT<double> v;
-  int n = nondet_int(); __CPROVER_assume(0 <= n && n <= 4);
+  int n = nondet_int();                      /* the requested count comes from the file in most callers: arbitrary, also negative or huge */
   g_fuel = %d; g_writes = 0;
   bool r = ASerializable_recordReadVec(is, title, v, n);
   __CPROVER_assert(!r || (v.size() == n && g_writes == n), "success only if all requested values were stored");
@@ -38,10 +38,13 @@ void vf_harness()
   VF_REACH();
 }
 """ % FUEL
-    return Unit("C09.recordReadVec", [f], mode="cpp", prelude=stub() + "\ntypedef double T;\n", harness=h, unwind=FUEL + 2, checks=[],
-                bounded="at most %d good() answers of the stream per call, nvalues <= 4" % FUEL,
-                claim=("ASerializable::_recordReadVec<T> on an arbitrary stream: no element is written outside the destination vector (in particular "
-                       "when the line holds more tokens than requested), true is returned only if exactly nvalues values were stored"),
+    hook = ("extern int g_writes;\n#define VF_ALLOC_HOOK(k) __CPROVER_assert((k) <= g_writes + (1 << 20), \"the destination is not sized from the requested count "
+            "before the values were read (a short line cannot force a huge allocation)\")\n")
+    return Unit("C09.recordReadVec", [f], mode="cpp", prelude=hook + stub() + "\ntypedef double T;\n", harness=h, unwind=FUEL + 2, checks=[],
+                bounded="at most %d good() answers of the stream per call" % FUEL,
+                claim=("ASerializable::_recordReadVec<T> on an arbitrary stream and an arbitrary requested count (negative and huge included): no element is "
+                       "written outside the destination vector (in particular when the line holds more tokens than requested), the vector is never sized by a "
+                       "negative count nor by a count not backed by values read, true is returned only if exactly nvalues values were stored"),
                 assumptions=COMMON_ASSUME,
                 canaries=[{"fn": "ASerializable::_recordReadVec<T>", "rx": r"if \(nvalues != ecr\)", "rp": "if (nvalues < ecr)", "expect": r"assertion"}])
 
@@ -98,31 +101,68 @@ void vf_harness()
                            "expect": r"assertion|unwind"}])
 
 
-def unit_db_deserialize():
+def unit_db_deserialize(full_range=False):
+    """full_range=False: count fields in [-32768, 32767], real Db::_loadData (buffer indexing).  full_range=True: arbitrary int counts, the
+    buffer-size product enters through VF_mul (no-overflow obligation in division form), Db::_loadData stubbed."""
     f = Fn("Db::_deserialize", "src/Db/Db.cpp", r"^bool Db::_deserialize\(std::istream& is, bool /\*verbose\*/\)\s*$",
            rewrites=[(r"_recordRead<int>\(", "VF_recordRead_int(", 2),
                      (r"_recordReadVec<String>\(", "VF_recordReadVec_String(", 2),
                      (r"_recordReadVecInPlace<double>\(", "VF_recordReadVecInPlace(", 1),
                      (r"VectorDouble::iterator it\(allvalues\.begin\(\)\);", "VecIter it = allvalues.begin();", 1),
+                     # the size of the value buffer: the product enters through VF_mul, whose precondition is the no-overflow fact in the
+                     # division form the guard establishes (a SAT back end cannot relate a multiplier to a divider, but shares identical terms)
+                     (r"VectorDouble allvalues\(nech \* ncol\);", "VectorDouble allvalues(VF_mul(nech, ncol));", 1),
+                     # every 'INT_MAX / x' goes through VF_div = an uninterpreted function constrained to equal the real quotient: two textual
+                     # occurrences with the same arguments are then the same term (CBMC encodes each '/' with fresh variables, and proving two
+                     # quotients equal needs multiplier reasoning that no back end finishes)
+                     (r"INT_MAX\s*/\s*(\w+)", r"VF_div(INT_MAX, \1)", "opt"),
                      (r"ELoadBy::SAMPLE", "VF_SAMPLE", 1),
                      (r"for \(const auto& loc: locators\)\s*\{", "for (int vf_i = 0; vf_i < locators.size(); vf_i++) { const String& loc = locators[vf_i];", 1)])
-    pre = stub() + """
+    g = Fn("Db::_loadData", "src/Db/Db.cpp", r"^void Db::_loadData\(const ELoadBy& order,\s*bool flagAddSampleRank,\s*const VectorDouble& tab\)\s*$",
+           rewrites=[(r"order == ELoadBy::SAMPLE", "VF_is_sample(order)", 1)])
+    pre = stub() + ("#define VF_FULL_RANGE 1\n" if full_range else "") + """
 /* contracts of the record readers (C09.recordReadVec / recordReadVecInPlace): value arbitrary; true only if everything was stored */
+int __CPROVER_uninterpreted_vfdiv(int, int);
+static int VF_div(int a, int b) { int q = __CPROVER_uninterpreted_vfdiv(a, b); __CPROVER_assume(q == a / b); return q; }
+#ifdef VF_FULL_RANGE
+bool VF_recordRead_int(std::istream& is, const String& title, int& val) { val = nondet_int(); return nondet_bool(); }      /* any int: negative, huge */
+/* a * b for the buffer size: requires that the product of the two validated counts cannot overflow, in division form */
+int VF_mul(int a, int b)
+{ __CPROVER_assert(a >= 0 && b >= 0, "buffer size: both counts were validated as not negative");
+  __CPROVER_assert(a == 0 || b == 0 || a <= VF_div(INT_MAX, b) || b <= VF_div(INT_MAX, a), "buffer size: the product of the two counts cannot overflow int (validated by a division test)");
+  int r = nondet_int(); __CPROVER_assume(r >= 0 && (a == 0 || b == 0 ? r == 0 : (r >= a && r >= b))); return r; }
+#else
 bool VF_recordRead_int(std::istream& is, const String& title, int& val) { val = nondet_int(); __CPROVER_assume(-32768 <= val && val <= 32767); return nondet_bool(); }
+int VF_mul(int a, int b) { return a * b; }
+#endif
 bool VF_recordReadVec_String(std::istream& is, const String& title, VectorString& vec, int nvalues)
 { __CPROVER_assert(nvalues >= 0, "resize(n): n is not negative"); bool ok = nondet_bool(); if (ok) vec.n = nvalues; else vec.clear(); return ok; }
 bool VF_recordReadVecInPlace(std::istream& is, const String& title, VecIter& it, int nvalues)
+#ifdef VF_FULL_RANGE
+{ return nondet_bool(); }                    /* buffer positions are not tracked when the product is abstracted */
+#else
 { bool ok = nondet_bool(); if (ok) { __CPROVER_assert(it.pos + nvalues <= it.limit, "the caller reserved room for the values read in place"); it.pos = it.pos + nvalues; } return ok; }
+#endif
 int g_reset_ncol, g_reset_nech, g_reset_calls;
+int g_is_grid, g_grid_total;       /* DbGrid overrides resetDims: the number of samples becomes the number of grid nodes whatever the file says */
 class Db {
 public:
+  int _ncol, _nech;
   bool _deserialize(std::istream& is, bool verbose);
-  void resetDims(int ncol, int nech) { g_reset_calls++; g_reset_ncol = ncol; g_reset_nech = nech; }
-  void _loadData(const ELoadBy& order, bool flag, const VectorDouble& tab) { }
+  void resetDims(int ncol, int nech) { g_reset_calls++; g_reset_ncol = ncol; g_reset_nech = nech; _ncol = ncol; _nech = g_is_grid ? g_grid_total : nech; }
+  int getSampleNumber() const { return _nech; }
+  int getColumnNumber() const { return _ncol; }
+#ifdef VF_FULL_RANGE
+  void _loadData(const ELoadBy& order, bool flagAddSampleRank, const VectorDouble& tab) {}
+#else
+  void _loadData(const ELoadBy& order, bool flagAddSampleRank, const VectorDouble& tab);
+#endif
+  void setValueByColIdx(int iech, int icol, double value) { __CPROVER_assert(0 <= iech && iech < _nech && 0 <= icol && icol < _ncol, "cell written inside the table"); }
   void setNameByUID(int iuid, const String& name) {}
   void setLocatorByUID(int iuid, const ELoc& loc, int num) {}
 };
 ELoadBy VF_SAMPLE;
+static bool VF_is_sample(const ELoadBy& o) { return nondet_bool(); }
 """
     pre = pre.replace("struct VecIter {                                   // VectorDouble::iterator",
                       "struct VecIter {                                   // VectorDouble::iterator")
@@ -130,18 +170,30 @@ ELoadBy VF_SAMPLE;
 int g_fuel; int g_writes;
 void vf_harness()
 {
-  std::istream is; Db db;
+  std::istream is; Db db; db._ncol = 0; db._nech = 0;
+  g_is_grid = nondet_bool(); g_grid_total = nondet_int(); __CPROVER_assume(0 <= g_grid_total && g_grid_total <= 32767);
   g_fuel = 6; g_writes = 0; g_reset_calls = 0;
   bool r = db._deserialize(is, false);
   __CPROVER_assert(!r || g_reset_calls <= 1, "the table is dimensioned at most once");
   VF_REACH();
 }
 """
-    return Unit("C09.Db_deserialize", [f], mode="cpp", prelude=pre, harness=h, unwind=4, checks=["--signed-overflow-check"], backends=("cadical", "minisat"), timeout=240,
-                bounded="count fields in [-32768, 32767] (products of two counts then cannot overflow: multiplication facts over the full int range time out on every back end); at most 3 samples / 3 columns explored by unwinding",
+    if full_range:
+        return Unit("C09.Db_deserialize.counts", [f], mode="cpp", prelude=pre, harness=h, unwind=4, checks=["--signed-overflow-check"], backends=("cadical", "minisat"), timeout=240,
+                    bounded="at most 3 samples / 3 columns explored by unwinding; the count fields are arbitrary ints",
+                    claim=("Db::_deserialize on ARBITRARY int count fields: the value buffer is sized only after both counts were validated as not negative and their "
+                           "product as not overflowing int (obligation in the division form 'a <= INT_MAX / b' that the guard establishes)"),
+                    assumptions=COMMON_ASSUME[1:2] + ["Route X; the product nech * ncol of the buffer size enters through VF_mul (one must-fire rewrite); its value is "
+                                                      "abstracted (any int >= both factors), so buffer indexing is NOT checked here (unit C09.Db_deserialize does, on bounded counts)",
+                                                      "Db::_loadData stubbed in this unit"],
+                    unwinding_assertions=False,
+                    canaries=[{"fn": "Db::_deserialize", "rx": r"nech > INT_MAX / ncol", "rp": "nech > INT_MAX / 2 / ncol * 3", "expect": r"assertion|FAIL"}])
+    return Unit("C09.Db_deserialize", [f, g], mode="cpp", prelude=pre, harness=h, unwind=4, checks=["--signed-overflow-check"], backends=("cadical", "minisat"), timeout=240,
+                bounded="count fields in [-32768, 32767] (products of two counts then cannot overflow; arbitrary counts: unit C09.Db_deserialize.counts); at most 3 samples / 3 columns explored by unwinding",
                 claim=("Db::_deserialize on arbitrary count fields: every container whose size comes from the file is allocated only after the counts "
                        "were validated (not negative, product without int overflow), the in-place reader is given exactly the room that was reserved, names/locators are "
-                       "indexed inside their vectors"),
+                       "indexed inside their vectors, and Db::_loadData (real text) reads the value buffer only inside it - also when the object is a DbGrid, whose "
+                       "resetDims() override sets the number of samples to the number of grid nodes whatever the file says"),
                 assumptions=COMMON_ASSUME[1:2] + ["Route X with 6 must-fire rewrites (template-call names, iterator declaration, range-for -> index loop)",
                                                   "record readers enter through their contracts; a valid but huge count (memory exhaustion) is not covered",
                                                   "loops unwound 3 times WITHOUT unwinding assertions for the sample/column loops (partial exploration of the loops; "
@@ -149,8 +201,235 @@ void vf_harness()
                 unwinding_assertions=False)
 
 
+def unit_dbgrid_deserialize():
+    f = Fn("DbGrid::_deserialize", "src/Db/DbGrid.cpp", r"^bool DbGrid::_deserialize\(std::istream& is, bool verbose\)\s*$",
+           rewrites=[(r"_recordRead<int>\(", "VF_read_int(", None), (r"_recordRead<double>\(", "VF_read_double(", None),
+                     # expression statement 'a && f();' is mis-parsed as a declaration by CBMC's C++ front end: same expression, cast to void
+                     (r"(?m)^(\s*)(ret && Db::_deserialize\(is, verbose\));", r"\1(void) (\2);", "opt")])
+    pre = ("""
+extern int g_records_ok;
+#define VF_ALLOC_HOOK(k) __CPROVER_assert((k) <= g_records_ok || (k) <= (1 << 20), "a container is sized from a file count only if that many records were read or the count was validated against a limit (a short file cannot force a huge allocation)")
+""" + stub() + """
+int g_records_ok, g_db_called, g_db_ok, g_grid_called, g_grid_rc, g_ndim_read;
+bool VF_read_int(std::istream& is, const String& title, int& val) { bool ok = nondet_bool(); if (ok) { val = nondet_int(); g_records_ok = g_records_ok + 1; } return ok; }
+bool VF_read_double(std::istream& is, const String& title, double& val) { bool ok = nondet_bool(); if (ok) { val = nondet_double(); g_records_ok = g_records_ok + 1; } return ok; }
+/* contract of Db::_deserialize (unit C09.Db_deserialize): may fail; and of gridDefine -> Grid::resetFromVector: returns 1 when a count or mesh is negative */
+class Db { public: bool _deserialize(std::istream& is, bool verbose) { g_db_called = g_db_called + 1; g_db_ok = nondet_bool(); return g_db_ok; } };
+class DbGrid : public Db {
+public:
+  bool _deserialize(std::istream& is, bool verbose);
+  int gridDefine(const VectorInt& nx, const VectorDouble& dx, const VectorDouble& x0, const VectorDouble& angles)
+  { g_grid_called = g_grid_called + 1; g_ndim_read = nx.size();
+    __CPROVER_assert(dx.size() == nx.size() && x0.size() == nx.size() && angles.size() == nx.size(), "the four grid vectors have one entry per dimension");
+    g_grid_rc = nondet_bool() ? 1 : 0; return g_grid_rc; }
+};
+""")
+    h = """
+int g_fuel; int g_writes;
+void vf_harness()
+{
+  std::istream is; DbGrid g;
+  g_fuel = 6; g_writes = 0; g_records_ok = 0; g_db_called = 0; g_db_ok = 0; g_grid_called = 0; g_grid_rc = 0; g_ndim_read = 0;
+  bool r = g._deserialize(is, false);
+  __CPROVER_assert(!r || (g_db_called == 1 && g_db_ok), "success is reported only if the table part (Db::_deserialize) was read successfully");
+  __CPROVER_assert(!r || (g_grid_called == 1 && g_grid_rc == 0), "success is reported only if the grid geometry read from the file was accepted by gridDefine");
+  __CPROVER_assert(!r || g_ndim_read >= 1, "success is reported only for a grid of at least one dimension");
+  VF_REACH();
+}
+"""
+    return Unit("C09.DbGrid_deserialize", [f], mode="cpp", prelude=pre, harness=h, unwind=4, checks=[], backends=("cadical", "minisat"), timeout=240,
+                bounded="at most 3 space dimensions explored by unwinding (no unwinding assertions: the dimension count is arbitrary)",
+                claim=("DbGrid::_deserialize on arbitrary content: no container is sized by a negative count, nor by a count that is neither backed by records "
+                       "already read nor validated against a limit; success is reported only when the grid geometry was accepted (gridDefine returned 0), the "
+                       "table part was read successfully and the grid has at least one dimension"),
+                assumptions=COMMON_ASSUME[1:2] + ["Route X; _recordRead<T> calls renamed by must-fire rewrites; Db::_deserialize and gridDefine enter through "
+                                                  "contracts (may fail arbitrarily)", "allocation rule: an allocation of more than 2^20 elements must be backed by as many records read"],
+                unwinding_assertions=False,
+                canaries=[{"fn": "DbGrid::_deserialize", "rx": r"return ret;\s*\}\s*$", "rp": "return true; }", "expect": r"assertion"}])
+
+
+# ---------------------------------------------------------------------------------------------------------------------------
+# class-level deserialisers: every container sized from a count in the file
+ALLOC_HOOK = ("extern int g_records_ok;\n#define VF_ALLOC_HOOK(k) __CPROVER_assert((k) <= g_records_ok || (k) <= (1 << 20), \"a container is sized from a file count only if "
+              "that many records were read or the count was validated against a limit (a short file cannot force a huge allocation)\")\n")
+READERS = """
+int g_records_ok;
+bool VF_read_int(std::istream& is, const String& title, int& val) { bool ok = nondet_bool(); if (ok) { val = nondet_int(); g_records_ok = g_records_ok + 1; } return ok; }
+bool VF_read_double(std::istream& is, const String& title, double& val) { bool ok = nondet_bool(); if (ok) { val = nondet_double(); g_records_ok = g_records_ok + 1; } return ok; }
+/* contract of _recordReadVec (unit C09.recordReadVec): any requested count is accepted; true only if exactly nvalues values were stored
+   (so nvalues >= 0), the vector is empty after a failure; the destination is not sized before the values were read */
+bool VF_readVec_double(std::istream& is, const String& title, VectorDouble& vec, int nvalues)
+{ bool ok = nondet_bool() && nvalues >= 0; if (ok) { vec.n = nvalues; g_records_ok = g_records_ok + (nvalues < 1000 ? nvalues : 1000); } else vec.clear(); return ok; }
+/* contract of _tableRead(is, title, ntab, tab): writes tab[0..ntab-1] */
+int g_tab_room;
+bool VF_tableRead(std::istream& is, const String& title, int ntab, double* tab) { __CPROVER_assert(ntab <= g_tab_room, "_tableRead is given a buffer holding ntab values"); return nondet_bool(); }
+"""
+RWC = [(r"_recordRead<int>\s*\(", "VF_read_int(", "opt"), (r"_recordRead<double>\s*\(", "VF_read_double(", "opt"),
+       (r"_recordReadVec<double>\s*\(", "VF_readVec_double(", "opt"), (r"_tableRead\s*\(", "VF_tableRead(", "opt")]
+
+
+def count_unit(name, fns, classes, harness, claim, canary, unwind=4, checks=("--signed-overflow-check",), alloc_rule=True):
+    pre = (ALLOC_HOOK if alloc_rule else "") + stub() + READERS + classes
+    return Unit("C09.%s" % name, fns, mode="cpp", prelude=pre, harness="int g_fuel; int g_writes;\n" + harness, unwind=unwind, checks=list(checks),
+                backends=("cadical", "minisat"), timeout=240, unwinding_assertions=False,
+                bounded="loops over file counts explored for their first %d iterations (no unwinding assertions: the counts are arbitrary)" % (unwind - 1),
+                claim=claim, canaries=[canary],
+                assumptions=COMMON_ASSUME[3:4] + ["Route X; record readers enter through their contracts (every read may fail, every value read is arbitrary)",
+                                                  ("allocation rule: an allocation of more than 2^20 elements must be backed by as many records read" if alloc_rule
+                                                   else "a valid but huge count (memory exhaustion) is NOT covered for this function")])
+
+
+def unit_polyline_deserialize():
+    f = Fn("PolyLine2D::_deserialize", "src/Basic/PolyLine2D.cpp", r"^bool PolyLine2D::_deserialize\(std::istream& is, bool /\*verbose\*/\)\s*$",
+           csig="bool PolyLine2D::_deserialize(std::istream& is, bool verbose)", rewrites=RWC)
+    classes = "class PolyLine2D { public: VectorDouble _x; VectorDouble _y; bool _deserialize(std::istream& is, bool verbose); };\n"
+    h = """
+void vf_harness()
+{
+  std::istream is; PolyLine2D p; g_records_ok = 0; g_writes = 0;
+  bool r = p._deserialize(is, false);
+  __CPROVER_assert(!r || p._x.size() == p._y.size(), "on success both coordinate vectors have the same length");
+  VF_REACH();
+}
+"""
+    return count_unit("PolyLine2D_deserialize", [f], classes, h,
+                      "PolyLine2D::_deserialize on arbitrary content: the coordinate vectors are never sized by a negative count nor by a count not backed by "
+                      "records read; the line buffer is only read after a successful read (index inside the vector)",
+                      {"fn": "PolyLine2D::_deserialize", "rx": r"buffer\[1\]", "rp": "buffer[2]", "expect": r"assertion|FAIL"})
+
+
+def unit_anamhermite_deserialize():
+    f = Fn("AnamHermite::_deserialize", "src/Anamorphosis/AnamHermite.cpp", r"^bool AnamHermite::_deserialize\(std::istream& is, bool verbose\)\s*$", rewrites=RWC)
+    classes = """
+#define TEST 1.234e30
+static double* VF_data(VectorDouble& v) { g_tab_room = v.n; return 0; }
+class AnamContinuous { public: bool _deserialize(std::istream& is, bool verbose) { return nondet_bool(); } };
+class AnamHermite : public AnamContinuous { public: int g_set;
+  void setPsiHns(const VectorDouble& psi_hn) {} void setRCoef(double r) {}
+  bool _deserialize(std::istream& is, bool verbose); };
+"""
+    f.rewrites = list(f.rewrites) + [(r"hermite\.data\(\)", "VF_data(hermite)", 1)]
+    h = """
+void vf_harness()
+{
+  std::istream is; AnamHermite a; g_records_ok = 0; g_writes = 0; g_tab_room = 0;
+  bool r = a._deserialize(is, false);
+  VF_REACH();
+}
+"""
+    return count_unit("AnamHermite_deserialize", [f], classes, h,
+                      "AnamHermite::_deserialize on arbitrary content: the coefficient vector is never sized by a negative count and _tableRead is given a buffer "
+                      "of exactly the number of values it stores (a valid but huge count is NOT covered: the vector must exist before _tableRead fills it)",
+                      {"fn": "AnamHermite::_deserialize", "rx": r"if \(ret\) hermite\.resize\(nbpoly\);", "rp": "if (ret) hermite.resize(nbpoly - 1);", "expect": r"assertion|FAIL"}, alloc_rule=False)
+
+
+def unit_rule_deserialize():
+    f = Fn("Rule::_deserialize", "src/LithoRule/Rule.cpp", r"^bool Rule::_deserialize\(std::istream& is, bool /\*verbose\*/\)\s*$",
+           csig="bool Rule::_deserialize(std::istream& is, bool verbose)", rewrites=RWC + [(r"ERule::fromValue\(mrule\)", "mrule", 1)])
+    classes = """
+int g_set_calls, g_set_rc, g_set_size;
+class Rule { public: double _rho; int _modeRule;
+  int setMainNodeFromNodNames(const VectorInt& nodes) { g_set_calls = g_set_calls + 1; g_set_size = nodes.size(); g_set_rc = nondet_bool() ? 1 : 0; return g_set_rc; }   /* may refuse the node table */
+  bool _deserialize(std::istream& is, bool verbose); };
+"""
+    h = """
+void vf_harness()
+{
+  std::istream is; Rule a; g_records_ok = 0; g_writes = 0; g_set_calls = 0; g_set_rc = 0; g_set_size = 0;
+  bool r = a._deserialize(is, false);
+  __CPROVER_assert(!r || (g_set_calls == 1 && g_set_rc == 0), "success is reported only if the node table was accepted by setMainNodeFromNodNames");
+  __CPROVER_assert(g_set_calls == 0 || g_set_size % 6 == 0, "the node table handed over holds six entries per node");
+  VF_REACH();
+}
+"""
+    return count_unit("Rule_deserialize", [f], classes, h,
+                      "Rule::_deserialize on arbitrary content: the node table (6 entries per node) is never sized by a negative or unbacked count, its size computation cannot "
+                      "overflow, it is indexed inside its bounds, and success is reported only if setMainNodeFromNodNames accepted the table",
+                      {"fn": "Rule::_deserialize", "rx": r"for \(int i = 0; ret && i < 6; i\+\+\)", "rp": "for (int i = 0; ret && i < 5; i++)", "expect": r"assertion|FAIL"}, unwind=8)
+
+
+def unit_table_deserialize():
+    f = Fn("Table::_deserialize", "src/Matrix/Table.cpp", r"^bool Table::_deserialize\(std::istream& is, bool /\*verbose\*/\)\s*$",
+           csig="bool Table::_deserialize(std::istream& is, bool verbose)", rewrites=RWC)
+    classes = """
+class Table { public: int _nrows, _ncols;
+  void reset(int nrows, int ncols) { __CPROVER_assert(nrows >= 0 && ncols >= 0, "the table is dimensioned with validated (non-negative) counts"); _nrows = nrows; _ncols = ncols; }
+  void setValue(int irow, int icol, double value) { __CPROVER_assert(0 <= irow && irow < _nrows && 0 <= icol && icol < _ncols, "cell written inside the table"); }
+  bool _deserialize(std::istream& is, bool verbose); };
+"""
+    h = """
+void vf_harness()
+{
+  std::istream is; Table a; a._nrows = 0; a._ncols = 0; g_records_ok = 0; g_writes = 0;
+  bool r = a._deserialize(is, false);
+  __CPROVER_assert(!r || (a._nrows >= 0 && a._ncols >= 0), "a table reported as loaded has non-negative dimensions");
+  VF_REACH();
+}
+"""
+    return count_unit("Table_deserialize", [f], classes, h,
+                      "Table::_deserialize on arbitrary content: the table is dimensioned only with non-negative counts and cells are written inside it "
+                      "(a valid but huge dimension is NOT covered)",
+                      {"fn": "Table::_deserialize", "rx": r"setValue\(irow, icol, value\)", "rp": "setValue(irow + 1, icol, value)", "expect": r"assertion|FAIL"}, alloc_rule=False)
+
+
+
+def unit_rule_setmainnode():
+    f = Fn("Rule::setMainNodeFromNodNames(nodes)", "src/LithoRule/Rule.cpp", r"^int Rule::setMainNodeFromNodNames\(const VectorInt& nodes\)\s*$")
+    pre = """
+#define nullptr 0
+#define NULL 0
+#define messerr(...) ((void)0)
+#define THRESH_IDLE 0
+#define THRESH_Y1   1
+#define THRESH_Y2   2
+#define FROM_TYPE(inode)     nodes[6 * (inode) + 0]
+#define FROM_RANK(inode)     nodes[6 * (inode) + 1]
+#define FROM_VERS(inode)     nodes[6 * (inode) + 2]
+#define NODE_TYPE(inode)     nodes[6 * (inode) + 3]
+#define NODE_RANK(inode)     nodes[6 * (inode) + 4]
+#define FACIES(inode)        nodes[6 * (inode) + 5]
+int nondet_int(); bool nondet_bool();
+struct String { String() {} String(const char*) {} const char* c_str() const { return ""; } };
+#define NMAXN 3
+struct VectorInt { int a[6 * NMAXN]; int n; int size() const { return n; }
+  int operator[](int i) const { __CPROVER_assert(0 <= i && i < n, "node table indexed inside its bounds"); return a[i]; } };
+struct SymbolTab { String s[3]; const String& operator[](int i) const { __CPROVER_assert(0 <= i && i < 3, "symbol table indexed inside its bounds"); String* q = (String*) (s + i); return *q; } };
+static SymbolTab symbol;
+class Node { public: Node* _r1; Node* _r2; Node(const String& name, int type, int facies) : _r1(0), _r2(0) {} void setR1(Node* n) { _r1 = n; } void setR2(Node* n) { _r2 = n; } };
+namespace std {
+  template <typename T> struct vector { T a[NMAXN]; int n;
+    vector(int k, T v) : n(k) { __CPROVER_assert(0 <= k && k <= NMAXN, "modelled capacity"); for (int i = 0; i < NMAXN; i++) a[i] = v; }
+    T& operator[](int i) { __CPROVER_assert(0 <= i && i < n, "parent table indexed inside its bounds"); return a[i]; } };
+  struct stringstream { stringstream& operator<<(const String&) { return *this; } stringstream& operator<<(int) { return *this; } String str() const { return String(); } };
+}
+class Rule { public: Node* _mainNode; int setMainNodeFromNodNames(const VectorInt& nodes); };
+"""
+    h = """
+void vf_harness()
+{
+  VectorInt nodes; nodes.n = nondet_int(); __CPROVER_assume(0 <= nodes.n && nodes.n <= 6 * NMAXN);
+  for (int i = 0; i < 6 * NMAXN; i++) nodes.a[i] = nondet_int();            /* arbitrary node table, as read from a damaged file */
+  Rule r; r._mainNode = 0;
+  int rc = r.setMainNodeFromNodNames(nodes);
+  __CPROVER_assert(rc != 0 || nodes.n < 6 || r._mainNode != 0, "an accepted non-empty node table defines the main node");
+  VF_REACH();
+}
+"""
+    return Unit("C09.Rule_setMainNodeFromNodNames", [f], mode="cpp", prelude=pre, harness=h, unwind=6 * NMAXN_RULE + 2, checks=["--pointer-check", "--signed-overflow-check"],
+                backends=("cadical", "minisat"), timeout=600, bounded="node tables of at most %d nodes (loops unwound with unwinding assertions)" % NMAXN_RULE,
+                ignore=r"pointer relation|pointer_primitives",
+                claim=("Rule::setMainNodeFromNodNames(nodes) on an ARBITRARY node table (as decoded from a damaged rule file): every access to the node table and "
+                       "to the parent tables stays inside their bounds and no parent pointer is dereferenced while null; an accepted non-empty table defines the main node"),
+                assumptions=["Route X; the macros FROM_TYPE..FACIES and THRESH_* are copied from the head of Rule.cpp (lines 25-35) without the outer parentheses of their bodies (CBMC's C++ front end rejects '((nodes[k]) == ...')", "Node, std::vector<Node*> and "
+                             "std::stringstream enter through minimal stubs; memory leaks on the error paths are not checked"],
+                canaries=[{"fn": "Rule::setMainNodeFromNodNames(nodes)", "rx": r"NODE_RANK\(inode\) > nb_node", "rp": "NODE_RANK(inode) > nb_node + 1", "expect": r"assertion|FAIL"}])
+
+NMAXN_RULE = 3
+
+
 def units(tier):
-    return [unit_readvec(), unit_readvec_inplace(), unit_tableread(), unit_db_deserialize()]
+    return [unit_rule_setmainnode(), unit_readvec(), unit_readvec_inplace(), unit_tableread(), unit_db_deserialize(), unit_db_deserialize(True), unit_dbgrid_deserialize(),
+            unit_polyline_deserialize(), unit_anamhermite_deserialize(), unit_rule_deserialize(), unit_table_deserialize()]
 
 
 META = {
